@@ -71,11 +71,11 @@ Theorem C07_having_keeps_relational : forall q p p' g,
 Proof. exact pa_having_keep_sem. Qed.
 Print Assumptions C07_having_keeps_relational.
 
-(* the other shapes are findings (F10h, F10i, F10j): SELECT COUNT( * ) AS a0 ... GROUP BY g on the group t = 20
+(* the other shapes are findings (F10h, F10i; F10j is repaired): SELECT COUNT( * ) AS a0 ... GROUP BY g on the group t = 20
      HAVING CASE WHEN MAX(t) > 15 THEN 1 ELSE 0 END > 0           drops the group although it satisfies it;
      HAVING a0 > 5 AND CASE WHEN MAX(t) > 15 THEN 1 ELSE 0 END    keeps the group although a0 = 1;
-     HAVING CASE WHEN MAX(t) > 15 THEN g ELSE 0 END               keeps the group g = -3 (a Go int) although
-                                                                  the value of the CASE is not > 0 *)
+     (HAVING CASE WHEN MAX(t) > 15 THEN g ELSE 0 END               kept the group g = -3 (a Go int) although
+                                                                  the value of the CASE is not > 0: repaired) *)
 Definition pa_ex_case_ops : list pa_cmpop := [PaGt].
 Definition pa_ex_case_es : list pa_hexp :=
   [PaHAgg (PaMax, PaField 0); PaHLit (15 # 1); PaHLit (1 # 1); PaHLit (0 # 1)].
@@ -97,15 +97,17 @@ Theorem C07_having_case_with_and_refuted :
   pa_hpred_src h /\ pa_survives (pa_ex_case_q h) pa_ex_case_g = false /\ pa_ex_case_keep h = Some true.
 Proof. split; [repeat constructor|]. vm_compute. split; reflexivity. Qed.
 Print Assumptions C07_having_case_with_and_refuted.
-Theorem C07_having_case_int_result_refuted :
+(* since the repair of F10j a CASE whose result is the (int-typed) GROUP BY column is judged like any other
+   number: the group g = -3 is dropped *)
+Theorem C07_having_case_int_result : 
   let h := PaHCase pa_ex_case_ops [PaHAgg (PaMax, PaField 0); PaHLit (15 # 1); PaHCol (PaGroup 0); PaHLit (0 # 1)] in
   let g : pa_group := ([PaNum (-3 # 1)], [[(0, 20%Z)]]) in
-  pa_hpred_src h /\ pa_survives (pa_ex_case_q h) g = false
+  pa_hpred_src h /\ pa_hroute_ok h /\ pa_survives (pa_ex_case_q h) g = false
   /\ option_map (fun p' => pa_hkeep p' (pa_post_row (pa_ex_case_q h)
                    (pa_base_row (pa_ex_case_q h) (snd (pa_hx (pa_ex_case_q h))) g))) (fst (pa_hx (pa_ex_case_q h)))
-     = Some true.
-Proof. split; [repeat constructor|]. vm_compute. split; reflexivity. Qed.
-Print Assumptions C07_having_case_int_result_refuted.
+     = Some false.
+Proof. split; [repeat constructor|]. split; [repeat constructor|]. vm_compute. split; reflexivity. Qed.
+Print Assumptions C07_having_case_int_result.
 (* non-vacuity of C07_having_keeps_relational on a CASE: the same CASE as the whole condition is routed
    to the evaluating path, keeps the group t = 20 and drops the group t = 10 *)
 Example C07_having_case_example :
